@@ -401,6 +401,23 @@ def validDnsName (s : String) : Bool :=
   | some (.subsequent _) | some .next => true
   | _ => false
 
+/-- The name a TLS library verifies (and sends as SNI) when the connector hands it `name` — environment,
+measured on the unchanged tree: rustls (`"r"`) reads ONE trailing dot as the root label of a fully
+qualified name and drops it; OpenSSL takes the name exactly as given.  Note that this is the library's
+doing: the connector itself hands over the request's hostname unchanged (`tls_name_is_hostname`), so
+`localhost..` reaches rustls as such and is rejected as a name, and reaches OpenSSL as such and matches
+no certificate for `localhost`. -/
+def verifiedName (lib : String) (name : String) : String :=
+  if lib == "r" then
+    match name.toList.reverse with
+    | '.' :: rest => String.ofList rest.reverse
+    | _ => name
+  else name
+
+/-- certificate names the library considers: rustls never matches a name that ends in a dot -/
+def certNamesFor (lib : String) (names : List String) : List String :=
+  if lib == "r" then names.filter fun n => n.toList.getLast? != some '.' else names
+
 def lowerStr (s : String) : String := String.ofList (s.toList.map Char.toLower)
 
 /-- textbook certificate coverage (RFC 6125): IP SAN for IP literals, else case-insensitive exact
